@@ -20,7 +20,7 @@ func init() {
 	engine.Register(&engine.Check{
 		ID:        "C02",
 		Technique: "stateless model checking of two real stacks in a deterministic world: DFS over all histories that drop any single frame / any pair of frames (and fire timers early) within the deviation budget, run to the idle horizon in virtual time; liveness decided exactly by inspecting the idle end state",
-		Rule:      "every history of each close scenario (one-sided shutdown, simultaneous shutdown, half-close then reply, accepting side speaks first, close with unread data, receiver stalls until the window closes then drains) x payload sizes {0, 1 segment, 3 segments, more than the receive window} in which the environment drops up to <budget> frames of the exchange (handshake, data, ACK, window update, FIN) or fires a timer early; distinct = distinct choice sequence; non-trivial = at least one deviation",
+		Rule:      "every history of each close scenario (one-sided shutdown, simultaneous shutdown, half-close then reply, accepting side speaks first, close with unread data, receiver stalls until the window closes then drains) x payload sizes {0, 1 segment, 3 segments, more than the receive window} in which the environment drops up to <budget> frames of the exchange (handshake, data, ACK, window update, FIN), fires a timer early, or (three configurations) reorders / duplicates a frame; distinct = distinct choice sequence; non-trivial = at least one deviation",
 		Assumes: []string{
 			"horizon: until nothing is in flight, no application call is possible and no virtual timer is pending (or 15 virtual minutes)",
 			"clean-close clause checked only when no frame was dropped and no timer fired early",
@@ -59,6 +59,12 @@ func c02Jobs(tier string) []string {
 	// answer to a retransmitted SYN-ACK can repair a lost third handshake segment
 	add(base+",close=b-first,bw=24,aw=24,b=1", 1)
 	add(base+",close=b-first,bw=24,aw=,b=1", 1)
+	// reordering and duplication around the close (a FIN overtaking the last data segment, a
+	// duplicated FIN, FINs crossing)
+	base2 := "or=c,devs=dfu,mtu=76"
+	add(base2+",close=both-shut,bw=24,aw=72,b=1", 2)
+	add(base2+",close=a-shut,aw=72,b=1", 1)
+	add(base2+",close=half,bw=48,aw=24,b=1", 1)
 	add(base+",close=close-unread,aw=72,b=1", 1)
 	add(base+",close=a-close,aw=72,b=1", 1)
 	if tier == "thorough" {
